@@ -35,6 +35,9 @@ def build_sa(sa_db, style, steps, flt):
                     "hasauthor": lambda: Post.author.has(Author.name.isnot(None))}[arg]()
             q = where(q, cond)
         elif kind == "join":
+            if arg == "author-explicit":        # by target and ON clause instead of the relationship
+                q = q.join(Author, Post.author_id == Author.id)
+                continue
             rel = Post.author if arg.startswith("author") else Post.info
             q = q.join(rel) if arg.endswith("inner") else q.outerjoin(rel)
         elif kind == "order":
@@ -61,7 +64,10 @@ def build_dj(dj_db, style, steps, flt):
     from django.db.models import F
     from odata_query.django import apply_odata_query
     Post = dj_db.m.Post
-    q = Post.objects if style == "dj-manager" else Post.objects.all()
+    if style == "dj-related":               # a related manager: the posts of author 1
+        q = dj_db.m.Author.objects.get(id=1).posts
+    else:
+        q = Post.objects if style == "dj-manager" else Post.objects.all()
     annotated = False
     for kind, arg in steps:
         if kind == "where":
